@@ -584,8 +584,25 @@ class Interp:
             return True
         return live2
 
-    def exec_for(self, st, frame, pc):
-        it = self.eval(st.iter, frame)
+    def exec_for(self, st, frame, pc, it=_MISSING):
+        if it is _MISSING:
+            it = self.eval(st.iter, frame)
+        if isinstance(it, Phi):
+            # loop over phi(c, A, B): run it for A under c and for B under not c, then join
+            c = it.cond
+            snap0 = self.snapshot(frame)
+            live1 = self.exec_for(st, frame, sp.And(pc, c) if pc is not sp.true else c, it.a)
+            snap1 = self.snapshot(frame)
+            self.restore(snap0)
+            nc = sp.Not(c)
+            live2 = self.exec_for(st, frame, sp.And(pc, nc) if pc is not sp.true else nc, it.b)
+            if live1 and live2:
+                self.restore(self.merge_states(c, snap1, self.snapshot(frame)))
+                return True
+            if live1:
+                self.restore(snap1)
+                return True
+            return live2
         items = self.lib.iterate(self, it)
         for item in items:
             self.assign(st.target, item, frame)
